@@ -5,8 +5,14 @@ import json, os, subprocess, sys, tempfile, shutil, time
 from concurrent.futures import ThreadPoolExecutor
 V = "/verif"
 ALL = ["C02", "C03", "C04", "C05", "C06", "C11", "C12", "C13", "C15", "C16", "C17", "C19", "C20"]
-args = [a for a in sys.argv[1:] if not a.startswith("--")]
-only_target = "--only-target" in sys.argv
+argv = sys.argv[1:]
+AS_OF = None            # --as-of <dir>: run <dir>/check (an older checkout of /verif) and store under meta["first_contact"]
+if "--as-of" in argv:
+    i = argv.index("--as-of")
+    AS_OF = argv[i + 1]
+    del argv[i:i + 2]
+args = [a for a in argv if not a.startswith("--")]
+only_target = "--only-target" in argv
 ids = args or sorted(os.listdir(os.path.join(V, "seeded")))
 BASE = "7d67693"
 
@@ -38,14 +44,15 @@ def run(sid):
             env = dict(os.environ, VERIF_REPO=d + "/repo", VERIF_REPLAY_DIR=d + "/replays", VERIF_EVIDENCE_DIR=d + "/evidence",
                        VERIF_WORKERS="5", VERIF_BUDGET_S="60")
             t0 = time.time()
-            cp = subprocess.run([V + "/check", prop, "quick"], capture_output=True, text=True, env=env, timeout=3600)
+            cp = subprocess.run([(AS_OF or V) + "/check", prop, "quick"], capture_output=True, text=True, env=env, timeout=3600)
             lines = cp.stdout.splitlines()
             vio = [l.strip() for l in lines if l.startswith("  clause=")]
-            meta["checks"][prop] = {"exit": cp.returncode, "wall_s": round(time.time() - t0, 1),
+            meta.setdefault("first_contact", {})
+            (meta["first_contact"] if AS_OF else meta["checks"])[prop] = {"exit": cp.returncode, "wall_s": round(time.time() - t0, 1),
                                     "violations": [v[:300] for v in vio[:2]],
                                     "summary": next((l for l in reversed(lines) if l.startswith("property=")), "")}
             json.dump(meta, open(sd + "/meta.json", "w"), indent=1)
-        if not only_target:
+        if not only_target and not AS_OF:
             meta["detected_by"] = sorted(p for p, r in meta["checks"].items() if r["exit"] == 1)
         json.dump(meta, open(sd + "/meta.json", "w"), indent=1)
         print(sid, "detected_by", meta.get("detected_by"), {p: r["exit"] for p, r in meta["checks"].items()}, flush=True)
